@@ -385,6 +385,7 @@ impl Scenario for C17 {
                 "rows_read_back_from_screen",
                 "screen_rows_differ_from_item_list",
                 "search_hides_some_rows",
+                "search_text_differs_from_plain_editing",
             ],
         }
     }
@@ -427,6 +428,14 @@ fn flags_of(a: &Jet1090) -> Flags {
         asc: a.sort_asc,
         query: a.search_query.clone(),
     }
+}
+
+/// The flags the property names: quit, search mode, sort key (with its order).
+/// The text of the search pattern is not one of them: how the prompt edits its
+/// text is the application's business (it is compared too, but a difference is
+/// only counted).
+fn flags_differ(a: &Flags, b: &Flags) -> bool {
+    a.quit != b.quit || a.search != b.search || a.sort != b.sort || a.asc != b.asc
 }
 
 /// the documented key map (specification of clause 3)
@@ -715,7 +724,10 @@ pub fn spawn_tui(
                             None => pre_flags.clone(),
                         };
                         let got = flags_of(&g);
-                        if got != want {
+                        if !flags_differ(&got, &want) && got.query != want.query {
+                            sh.borrow_mut().count("search_text_differs_from_plain_editing");
+                        }
+                        if flags_differ(&got, &want) {
                             let what = key.as_ref().map(key_name).unwrap_or("tick/error".into());
                             let field = if got.quit != want.quit {
                                 "should_quit"
@@ -1198,7 +1210,10 @@ fn seq_step(g: &mut tokio::sync::MutexGuard<'_, Jet1090>, cx: &mut SeqCtx, ev: &
         None => pre_flags.clone(),
     };
     let got = flags_of(g);
-    if got != want {
+    if !flags_differ(&got, &want) && got.query != want.query {
+        *cx.counters.entry("search_text_differs_from_plain_editing").or_insert(0) += 1;
+    }
+    if flags_differ(&got, &want) {
         let field = if got.quit != want.quit {
             "should_quit"
         } else if got.search != want.search {
